@@ -144,7 +144,7 @@ theorem enqueueCloseCtl_w (h : List Tgt) : Pres (W h) (enqueue .closeCtl) := enq
 attribute [aesop safe apply (rule_sets := [Wk])] Pres.pure Pres.getS Pres.getK Pres.getA Pres.getW Pres.getO Pres.nowMs
 attribute [aesop safe apply (rule_sets := [Wk])] Pres.bind Pres.ite Pres.for_in
 attribute [aesop safe apply (rule_sets := [Wk])] wLeafW LeafW.toLeafK
-attribute [aesop safe apply (rule_sets := [Wk])] kKill_pres kWaitpid_pres kStateOf_pres kChildren_pres kSleep_pres
+attribute [aesop safe apply (rule_sets := [Wk])] kKill_pres xKill_pres kWaitpid_pres kStateOf_pres kChildren_pres kSleep_pres
   notify_pres callHook_pres procStatus_pres isAlive_pres objStop_pres sendSignal_pres sendSignalChild_pres
   sendSignalProcess_pres activeProcs_pres setBlocked_pres reapWait_pres reapTail_pres reapProcess_pres reapProcesses_pres
   usedWids_pres arbReapLoop_pres registered_pres iterWatchers_pres arbReapProcesses_pres
